@@ -272,9 +272,16 @@ func buildFuncIR(fi *FuncInfo, funcs map[*types.Func]*FuncInfo, fset *token.File
 		x.alias[r] = "item"
 	}
 	nNat, nVal := 0, 0
+	nBuf := 0
 	for i := 0; i < sig.Params().Len(); i++ {
 		v := sig.Params().At(i)
 		role, name := classifyParam(v, i, &nNat, &nVal)
+		if role == "buf" {
+			nBuf++
+			if nBuf > 1 {
+				name = "buf" + strconv.Itoa(nBuf)
+			}
+		}
 		x.alias[v] = name
 		ir.Params = append(ir.Params, ParamIR{Var: v, Role: role, Name: name})
 	}
